@@ -13,7 +13,8 @@ import UtapModel.Model.C16
 namespace UtapModel.Builder
 
 /-- the stack machine resolves every use exactly as the declarative semantics says, for every well-nested script
-    (any nesting of function / block / iteration / quantifier / template / edge-select / instantiation scopes) -/
+    (any nesting of function / block / iteration / quantifier / template / edge-select / instantiation scopes, with symbols
+    taken out of a frame again by `frame_t::remove` at any point: the rebuilt frame denotes the scope without that declaration) -/
 theorem C07_binding (evs : List Ev) (h : wellNested 0 evs = true) : implRun SState.init evs = specRun [[]] 0 evs :=
   impl_eq_spec evs SState.init [[]] 0 0 Rel.init rfl h
 
@@ -115,6 +116,77 @@ theorem C07_latest (x : String) (sc : Scope) (d : Nat) (h : lookupScope x sc = s
         rcases List.mem_cons.mp he' with h1 | h1
         · rw [h1]; exact he
         · exact hl e' h1
+
+/-! ### a symbol taken out of its frame (`Document::remove_process` → `frame_t::remove`) -/
+
+/-- removal withdraws exactly the declaration a use of the name was bound to: the scope is the same list of declarations, in the
+    same order, without that one -/
+theorem C07_remove_withdraws_latest (x : String) (sc : Scope) (d : Nat) (h : lookupScope x sc = some d) :
+    ∃ later earlier, sc = later ++ (x, d) :: earlier ∧ (∀ e ∈ later, e.1 ≠ x) ∧ withdraw x sc = later ++ earlier := by
+  obtain ⟨later, earlier, hs, hl⟩ := C07_latest x sc d h
+  refine ⟨later, earlier, hs, hl, ?_⟩
+  have hx : x ≠ "" := by intro hx; simp [lookupScope, hx] at h
+  unfold withdraw
+  simp only [hx, if_false]
+  rw [hs, List.eraseP_append_right _ (by intro e he; simpa using hl e he), List.eraseP_cons_of_pos (by simp)]
+
+/-- every other name keeps its binding: the declarations after the removed one do not move -/
+theorem C07_remove_keeps_others (x y : String) (sc : Scope) (h : y ≠ x) : lookupScope y (withdraw x sc) = lookupScope y sc := by
+  unfold withdraw
+  split
+  · rfl
+  · unfold lookupScope
+    split
+    · rfl
+    · congr 1
+      induction sc with
+      | nil => rfl
+      | cons e t ih =>
+        by_cases he : e.1 = x
+        · rw [List.eraseP_cons_of_pos (by simpa using he), List.find?_cons_of_neg (by simpa using fun (hy : e.1 = y) => h (hy.symm.trans he))]
+        · rw [List.eraseP_cons_of_neg (by simpa using he)]
+          by_cases hy : e.1 = y
+          · rw [List.find?_cons_of_pos (by simpa using hy), List.find?_cons_of_pos (by simpa using hy)]
+          · rw [List.find?_cons_of_neg (by simpa using hy), List.find?_cons_of_neg (by simpa using hy), ih]
+
+/-- the removed name falls back to the declaration it was hiding in that scope (the instantiation `A = T(1)` behind the process
+    `A`), and to the enclosing scopes when there is none -/
+theorem C07_remove_reexposes (x : String) (later earlier : Scope) (d : Nat) (hl : ∀ e ∈ later, e.1 ≠ x) :
+    lookupScope x (withdraw x (later ++ (x, d) :: earlier)) = lookupScope x earlier := by
+  by_cases hx : x = ""
+  · simp [lookupScope, hx]
+  · unfold withdraw
+    simp only [hx, if_false]
+    rw [List.eraseP_append_right _ (by intro e he; simpa using hl e he), List.eraseP_cons_of_pos (by simp)]
+    unfold lookupScope
+    simp only [hx, if_false]
+    congr 1
+    rw [List.find?_append, List.find?_eq_none.mpr (by intro e he; simpa using hl e he)]
+    rfl
+
+/-- a name the scope does not declare: nothing is removed -/
+theorem C07_remove_absent (x : String) (sc : Scope) (h : lookupScope x sc = none) : withdraw x sc = sc := by
+  unfold withdraw
+  split
+  · rfl
+  · rename_i hx
+    apply List.eraseP_of_forall_not
+    intro e he
+    unfold lookupScope at h
+    simp only [hx, if_false, Option.map_eq_none_iff] at h
+    simpa using List.find?_eq_none.mp h e he
+
+/-- the machine's removal is the rebuild of symbols.cpp: the top frame keeps every symbol but the removed one, in order -/
+theorem C07_remove_is_rebuild (s : SState) (x : String) (fr : Frame) (sid : SymId) (hf : s.store[s.top]? = some fr)
+    (hl : fr.lookup s.syms x = some sid) :
+    (s.remove x).store[s.top]? = some { fr with syms := fr.syms.filter (· ≠ sid) } ∧ (s.remove x).syms = s.syms ∧
+      (s.remove x).frames = s.frames := by
+  simp [SState.remove, hf, hl]
+
+-- removal in a non-trivial script: globals a, P (instantiation), P (process), Q, R; remove P: Q and R keep their declarations, P falls
+-- back to the instantiation; remove P again: unknown
+example : specRun [[]] 0 [.declare "a", .declare "P", .declare "P", .declare "Q", .declare "R", .use "P", .remove "P", .use "P", .use "Q",
+    .use "R", .use "a", .remove "P", .use "P", .use "R"] = [some 2, some 1, some 3, some 4, some 0, none, some 4] := by decide
 
 /-! ### the M-BUILD callbacks perform the machine's operations -/
 
